@@ -16,6 +16,8 @@ func Run(a vc.Args) {
 	switch a.Prop {
 	case "C39":
 		runReduce(a)
+	case "C38":
+		runViewChange(a)
 	case "C48":
 		runSettings(a)
 	default:
